@@ -470,10 +470,16 @@ func dt64Kind(p int, loc *time.Location, locName string) tk[time.Time] {
 		},
 		to: func(v ref.Val) time.Time {
 			x := int64(leU(v.([]byte)))
+			if x == 0 {
+				return time.Time{} // the library maps the zero time to 0 and back to the epoch
+			}
 			sec := floorDiv(x, tps)
 			return time.Unix(sec, (x-sec*tps)*scale)
 		},
 		from: func(v time.Time) ref.Val {
+			if v.IsZero() {
+				return le(8, 0)
+			}
 			return le(8, uint64(v.Unix()*tps+int64(v.Nanosecond())/scale))
 		},
 		val: rapid.Custom(func(t *rapid.T) ref.Val {
@@ -681,22 +687,28 @@ func init() {
 		from: func(v proto.IPv6) ref.Val { return append([]byte(nil), v[:]...) }, val: bytesGen(16)}, true)
 
 	reg(tk[time.Time]{t: ref.Fixed("Date", 2), scalar: "Date", zc: true,
-		mk:   func() proto.ColumnOf[time.Time] { return new(proto.ColDate) },
-		to:   func(v ref.Val) time.Time { return time.Unix(int64(leU(v.([]byte)))*86400, 0).UTC() },
-		from: func(v time.Time) ref.Val { return le(2, uint64(floorDiv(v.Unix(), 86400))) }, val: bytesGen(2)}, true)
+		mk: func() proto.ColumnOf[time.Time] { return new(proto.ColDate) },
+		to: func(v ref.Val) time.Time {
+			return zeroTimeFor0(int64(leU(v.([]byte))), time.Unix(int64(leU(v.([]byte)))*86400, 0).UTC())
+		},
+		from: func(v time.Time) ref.Val { return le(2, uint64(floorDiv(unixOrZero(v), 86400))) }, val: bytesGen(2)}, true)
 	reg(tk[time.Time]{t: ref.Fixed("Date32", 4), scalar: "Date32", zc: true,
-		mk:   func() proto.ColumnOf[time.Time] { return new(proto.ColDate32) },
-		to:   func(v ref.Val) time.Time { return time.Unix(int64(int32(leU(v.([]byte))))*86400, 0).UTC() },
-		from: func(v time.Time) ref.Val { return le(4, uint64(floorDiv(v.Unix(), 86400))) },
+		mk: func() proto.ColumnOf[time.Time] { return new(proto.ColDate32) },
+		to: func(v ref.Val) time.Time {
+			return zeroTimeFor0(int64(int32(leU(v.([]byte)))), time.Unix(int64(int32(leU(v.([]byte))))*86400, 0).UTC())
+		},
+		from: func(v time.Time) ref.Val { return le(4, uint64(floorDiv(unixOrZero(v), 86400))) },
 		val: rapid.Custom(func(t *rapid.T) ref.Val {
 			d := rapid.OneOf(rapid.Int32Range(date32Lo, date32Hi), rapid.Int32Range(-3, 3), rapid.SampledFrom([]int32{date32Lo, date32Hi})).Draw(t, "date32")
 			return le(4, uint64(d))
 		})}, true)
 	dtK := func(name string, loc *time.Location) tk[time.Time] {
 		return tk[time.Time]{t: ref.Fixed(name, 4), scalar: "DateTime", zc: true,
-			mk:   func() proto.ColumnOf[time.Time] { return &proto.ColDateTime{Location: loc} },
-			to:   func(v ref.Val) time.Time { return time.Unix(int64(leU(v.([]byte))), 0) },
-			from: func(v time.Time) ref.Val { return le(4, uint64(v.Unix())) }, val: bytesGen(4)}
+			mk: func() proto.ColumnOf[time.Time] { return &proto.ColDateTime{Location: loc} },
+			to: func(v ref.Val) time.Time {
+				return zeroTimeFor0(int64(leU(v.([]byte))), time.Unix(int64(leU(v.([]byte))), 0))
+			},
+			from: func(v time.Time) ref.Val { return le(4, uint64(unixOrZero(v))) }, val: bytesGen(4)}
 	}
 	reg(dtK("DateTime", nil), true)
 	regAny(dtK("DateTime('UTC')", time.UTC))
@@ -935,6 +947,23 @@ func DrawKind(t *rapid.T, label string) *Kind {
 }
 
 // DrawRows draws n values of kind k.
+// zeroTimeFor0: the raw value 0 of a date/time column is handed to the library as the zero
+// time.Time (which it documents as 0), every other value as the instant itself.
+func zeroTimeFor0(raw int64, t time.Time) time.Time {
+	if raw == 0 {
+		return time.Time{}
+	}
+	return t
+}
+
+// unixOrZero: a column that keeps the caller's values (LowCardinality) hands the zero time back as it is.
+func unixOrZero(v time.Time) int64 {
+	if v.IsZero() {
+		return 0
+	}
+	return v.Unix()
+}
+
 func DrawRows(t *rapid.T, k *Kind, n int) []ref.Val {
 	out := make([]ref.Val, n)
 	if n > 1100 {
